@@ -33,7 +33,7 @@ def specReg (evs : List RegEv) : Entry → Bool := specFrom (fun _ => false) evs
 def evOf (w : W) : Op → RegEv
   | .call p _ _ (.bind c s t) => if connected w p && callOk w p (.bind c s t) then .granted (s, p, c) else .other
   | .call p _ _ (.unbind c s) => if connected w p && callOk w p (.unbind c s) then .deleted (s, p, c) else .other
-  | .entRem p e _ _ => if connected w p && hasEnt w p e then .entityGone p e else .other
+  | .entRem p e _ _ => if connected w p && remGo w p e then .entityGone p e else .other
   | .drop p => .peerGone p
   | .full p keep _ _ => if connected w p && !fullEmpty w p keep then .entitiesGone p (fullRemoved w p keep) else .other
   | _ => .other
@@ -48,11 +48,19 @@ def Inv (w : W) : Prop := ∀ b ∈ w.binds, hasEnt w b.2.1 b.2.2.1 = true
 def Agree (w : W) (holds : Entry → Bool) : Prop := ∀ x, x ∈ w.binds ↔ holds x = true
 def Sound (w : W) (holds : Entry → Bool) : Prop := ∀ x, x ∈ w.binds → holds x = true
 
-/-- an "entity added" notification announces at least one feature of the entity (the model derives the presence of
-    an entity from its features) -/
-def opOk (fresh : Peer) : Op → Prop
-  | .entAdd _ e _ _ => (fresh.feats.any fun f => f.ent = e) = true
-  | _ => True
+/-- the DOMAIN of the model, as a decidable predicate on operations: the model knows an entity through its features, so
+    every entity an operation announces as new must carry a feature of the announcement set — an "added" entry with at
+    least one feature, a full notification whose listed entities all have features. Outside it (an entity announced
+    WITHOUT features stays known to the code, featureless) the model leaves the code: `c06_agree_boundary_featureless`
+    in `Props/C06Agree.lean`; the harness runs such histories judged by the SPEC monitors only. -/
+def featured (fresh : Peer) : Op → Bool
+  | .entAdd _ e _ _ => fresh.feats.any fun f => f.ent = e
+  | .full _ keep _ _ => keep.all fun e => fresh.feats.any fun f => f.ent = e
+  | _ => true
+
+def opOk (fresh : Peer) (op : Op) : Prop := featured fresh op = true
+
+instance (fresh : Peer) (op : Op) : Decidable (opOk fresh op) := by unfold opOk; infer_instance
 
 /-! #### frame lemmas -/
 
@@ -302,22 +310,22 @@ theorem entDrops_clean (cfg : Cfg) (hc : cfg.entRemovalAnyPeer = false) (p : Nat
 
 theorem binds_processEntRem (w : W) (p : Nat) (e : List Nat) (ctr : Nat) (ack : Bool) :
     (processEntRem w p e ctr ack).1.binds =
-      if connected w p && hasEnt w p e then w.binds.filter (fun b => !entDrops w.cfg p e b) else w.binds := by
+      if connected w p && remGo w p e then w.binds.filter (fun b => !entDrops w.cfg p e b) else w.binds := by
   unfold processEntRem
-  cases hc : connected w p <;> cases hh : hasEnt w p e <;> simp [binds_bump, removeEnt]
+  cases hc : connected w p <;> cases hh : remGo w p e <;> simp [binds_bump, removeEnt]
 
 theorem feats_processEntRem (w : W) (p : Nat) (e : List Nat) (ctr : Nat) (ack : Bool) (q : Nat) :
     ((processEntRem w p e ctr ack).1.peers q).feats =
-      if (connected w p && hasEnt w p e) && q = p then (w.peers p).feats.filter (fun f => f.ent ≠ e)
+      if (connected w p && remGo w p e) && q = p then (w.peers p).feats.filter (fun f => f.ent ≠ e)
       else (w.peers q).feats := by
   unfold processEntRem
-  cases hc : connected w p <;> cases hh : hasEnt w p e <;> simp [bump, sendN, removeEnt, setPeer]
+  cases hc : connected w p <;> cases hh : remGo w p e <;> simp [bump, sendN, removeEnt, setPeer]
   split <;> simp_all
 
 theorem frame_processEntRem (w : W) (p : Nat) (e : List Nat) (ctr : Nat) (ack : Bool) :
     (processEntRem w p e ctr ack).1.cfg = w.cfg ∧ (processEntRem w p e ctr ack).1.fresh = w.fresh := by
   unfold processEntRem
-  cases hc : connected w p <;> cases hh : hasEnt w p e <;> simp [bump, removeEnt, setPeer]
+  cases hc : connected w p <;> cases hh : remGo w p e <;> simp [bump, removeEnt, setPeer]
 
 theorem step_entRem_inv (w : W) (p : Nat) (e : List Nat) (ctr : Nat) (ack : Bool) (hinv : Inv w) :
     Inv (processEntRem w p e ctr ack).1 := by
@@ -325,7 +333,7 @@ theorem step_entRem_inv (w : W) (p : Nat) (e : List Nat) (ctr : Nat) (ack : Bool
   rw [binds_processEntRem] at hb
   unfold hasEnt
   rw [feats_processEntRem]
-  cases hgo : (connected w p && hasEnt w p e) with
+  cases hgo : (connected w p && remGo w p e) with
   | false =>
     simp only [hgo, Bool.false_eq_true, if_false, Bool.false_and] at hb ⊢
     exact hinv b hb
